@@ -63,6 +63,9 @@ Fixpoint touts_eqb (a b : list tout) : bool :=
 Definition case := (input * list tout)%type.
 Definition model_outs (i : input) : list tout := trun (i_incl i) (tinit (i_q i) (i_bcap i) (i_conds i)) (i_ops i).
 Definition agree (c : case) : bool := touts_eqb (model_outs (fst c)) (snd c).
+(* The oracle counts a sample as "arrived since the previous run" only if its timestamp is strictly newer than
+   the previous positive decision: a sample stamped at that very instant was already there when the trainer
+   ran (with a frozen clock it would otherwise be counted again and again). *)
 Definition prop_ok (c : case) : bool :=
   let i := fst c in
-  tspec (i_incl i) (i_q i) (i_bcap i) [] [] 0 (map (fun c => {| cond := c; marker := None |}) (i_conds i)) 0 (i_ops i) (snd c).
+  tspec false (i_q i) (i_bcap i) [] [] 0 (map (fun c => {| cond := c; marker := None |}) (i_conds i)) 0 (i_ops i) (snd c).
